@@ -629,6 +629,7 @@ func bRange() {
 				case variant == 3 && index == 0, variant == 4 && index == 1:
 					panic("scripted panic")
 				}
+				vrt.Log("range-fn-end", index)
 				return true
 			})
 			vrt.Log("range-ret", "err", errStr(err))
@@ -835,6 +836,43 @@ func bReclaimParked(cooldown time.Duration) func() {
 	}
 }
 
+// B-reclaim-parked3: three consumers and one value. B reads, commits and parks in a blocked Get (its
+// reader then waits on the same cond as the cleaner); A and C read and commit at any later point.
+// Every commit must reach the cleaner, whoever else is waiting on the cond and in whatever order.
+func bReclaimParked3(cooldown time.Duration) func() {
+	return func() {
+		h := newBufH(cooldown, nil)
+		cb, ca, cc := h.newC(), h.newC(), h.newC()
+		ctx, cancel := context.WithCancel(context.Background())
+		var wg, pwg sync.WaitGroup
+		h.put(0, nil, 1)
+		pwg.Add(1)
+		go func() {
+			defer pwg.Done()
+			cb.get(0, nil)
+			cb.commit()
+			cb.get(1, ctx) // parked: nothing more is ever put
+		}()
+		for _, c := range []bufC{ca, cc} {
+			wg.Add(1)
+			go func() {
+				defer wg.Done()
+				c.get(0, nil)
+				c.commit()
+			}()
+		}
+		wg.Wait()
+		vrt.Log("quiet", int(vrt.Elapsed()), 0)
+		for h.b.Size() > 0 {
+			vrt.Yield()
+		}
+		vrt.Log("reclaimed", int(vrt.Elapsed()), h.b.Size(), int(cooldown))
+		cancelCtx(1, cancel)
+		pwg.Wait()
+		h.finish(cb, ca, cc)
+	}
+}
+
 // B-reclaim-busy: the workload never goes quiet for a whole cooldown (an operation every 4ms of
 // virtual time, cooldown 10ms): consumed prefixes must still be freed while it goes on.
 func bReclaimBusy() {
@@ -859,6 +897,15 @@ func init() {
 		vrt.Register(&vrt.Scenario{Name: name, Props: []string{"C04", "C11:race", "C12:goroutine-leak,close-"}, Quick: 2, Thorough: 3,
 			Desc: "as B-reclaim with a second, caught-up consumer parked in a blocked Get on the same cond when the program goes quiet",
 			Opts: vrt.Options{Delay: true}, Run: bReclaimParked(cd), Check: reclaimCheck(defaultPolicy)})
+	}
+	for _, cd := range []time.Duration{0, 10 * time.Millisecond} {
+		name, q, t := "B-reclaim-parked3", 1, 2
+		if cd == 0 {
+			name, q, t = name+"-cd0", 2, 3
+		}
+		vrt.Register(&vrt.Scenario{Name: name, Props: []string{"C04", "C11:race", "C12:goroutine-leak,close-"}, Quick: q, Thorough: t,
+			Desc: "three consumers, one value: one consumer commits and parks in a blocked Get (its reader waits on the cleaner's cond), the two others commit later in any order; then quiet",
+			Opts: vrt.Options{Delay: true}, Run: bReclaimParked3(cd), Check: reclaimCheck(defaultPolicy)})
 	}
 	vrt.Register(&vrt.Scenario{Name: "B-reclaim-busy", Props: []string{"C04", "C12:goroutine-leak,close-"}, Quick: 1, Thorough: 2,
 		Desc: "a consumer that keeps up with one Put every 4ms of virtual time (cooldown 10ms): the buffer must be trimmed while the traffic goes on",
